@@ -34,7 +34,7 @@ need_builds() { # which binaries a property needs
   case "$1" in
     C06|C20) echo "default purego 386" ;;
     C13)     echo "default race 386" ;;
-    C04|C05|C10|C11|C12|C14|C15|C19) echo "default 386" ;;
+    C01|C02|C03|C04|C05|C07|C08|C09|C10|C11|C12|C14|C15|C16|C17|C18|C19) echo "default 386" ;;
     *)       echo "default" ;;
   esac
 }
